@@ -110,6 +110,64 @@ def main(argv: List[str]) -> int:
                             {"input": j, "observed": obs, "replay": f"converter.structure(<input>, lsprotocol.types.{d.pyname})"},
                             True,
                         )
+    # ---- the same, for enumeration-typed properties of an object reached THROUGH a union-typed property of the container (the hook decides
+    #      how that object is built: a hand-built alternative skips the enum conversion)
+    from lib.sweeps import union_nested_sites
+
+    seen_nested = set()
+    for d in decls:
+        cls = getattr(T, d.pyname, None)
+        if cls is None:
+            continue
+        base = None
+        for p in d.props:
+            if p.get("_envelope"):
+                continue
+            for alt_t, nprops, place in union_nested_sites(mm, p["type"]):
+                for q in nprops:
+                    for ename, wrap in enum_positions(mm, q["type"], lambda v: v):
+                        ed = mm.enumerations[ename]
+                        vals = [v["value"] for v in ed["values"]]
+                        is_str = ed["type"]["name"] == "string"
+                        custom = [c for c in (["x-custom", "", "UPPER"] if is_str else [4242, 0, -5 if ed["type"]["name"] == "integer" else 99]) if c not in vals]
+                        try:
+                            inner0 = mm.witness(alt_t, False, 2)
+                        except Exception:  # noqa
+                            continue
+                        if not isinstance(inner0, dict):
+                            continue
+                        if base is None:
+                            base = mm.witness_props(d.props, False, 0)
+                        for v, accept in [(v, True) for v in vals[:3]] + [(c, mm.is_open_enum(ename)) for c in custom]:
+                            inner = dict(inner0)
+                            inner[q["name"]] = wrap(v)
+                            val = place(inner)
+                            okv = mm.valid(p["type"], val, True)
+                            if accept and not okv:
+                                continue
+                            if not accept and mm.valid(p["type"], val, False):
+                                continue
+                            j = dict(base)
+                            j[p["name"]] = val
+                            sweep += 1
+                            try:
+                                obj = conv.structure(j, cls)
+                                back = conv.unstructure(obj)
+                                ok = accept and json_equal(back.get(p["name"]), mm.norm(p["type"], val))
+                                obs = f"accepted; re-serialised {p['name']} = {str(back.get(p['name']))[:120]}"
+                            except Exception as ex:  # noqa
+                                ok = not accept
+                                obs = f"rejected ({type(ex).__name__})"
+                            if ok:
+                                continue
+                            a = next((a_.name for a_ in live.attrs.fields(cls) if (live.wire_name(cls, a_.name) or a_.name) == p["name"]), p["name"])
+                            kind = "declared" if v in vals else "custom"
+                            an = alt_t["name"] if alt_t["kind"] == "reference" else "literal"
+                            key = f"enum-use:{d.pyname}.{a}>{an}.{q['name']}:{ename}:{kind}"
+                            if key in seen_nested:
+                                continue
+                            seen_nested.add(key)
+                            run.violation(key, f"{d.pyname}.{a}: {kind} value {v!r} of {'open' if mm.is_open_enum(ename) else 'closed'} enumeration {ename} at {q['name']} inside the {an} alternative should be {'accepted and round-trip' if accept else 'rejected'}; {obs}", {"input": j, "observed": obs, "replay": f"converter.structure(<input>, lsprotocol.types.{d.pyname})"}, True)
     if n1 == 0:
         run.crash("no enum obligation")
     run.assume(*U.ASSUMPTIONS[:3], "CompletionItemKind is counted as open (documented customisation)", "cattrs structures an Enum-annotated field with Enum(v) (assumed row; exercised at every use site by the sweep)")
